@@ -126,6 +126,29 @@ impl Prop for C17 {
                             }
                             ctx.count("reach.immediate_mode_warning_checked");
                         }
+                        // whatever ended the run (an error inside a clause, END, a STOP), the tracing
+                        // flag is still what the host set: a line executed now is traced iff tracing is on.
+                        // (only when no TRACE / NOTRACE command was part of the session)
+                        if !trace_cmds && !cc.stop_cmds.iter().any(|x| x == "NOTRACE") && !cc.trace_via_command {
+                            let mut recs = vec![];
+                            for l in ["99991 REM", "GOTO 99991", "99991"] {
+                                for call in s.line_and_settle(l, 10) {
+                                    recs.extend(call.recs);
+                                }
+                            }
+                            let traced: Vec<u64> = recs.iter().filter_map(|r| if let Rec::Trace(n) = r { Some(*n) } else { None }).collect();
+                            let want: Vec<u64> = if t { vec![99991] } else { vec![] };
+                            let mut got = traced.clone();
+                            got.dedup();
+                            if got != want {
+                                return Some(Violation::new(
+                                    "C17/tracing-flag-changed",
+                                    format!("tracing={} traced {:?}", t, got),
+                                    format!("[tracing={t} warnings={w}] after the run, `GOTO 99991` onto a fresh line gave trace records {:?}; the host set tracing={t} and no TRACE/NOTRACE command was typed", traced),
+                                ));
+                            }
+                            ctx.count("reach.tracing_flag_checked_after_run");
+                        }
                     }
                 }
                 Err(mut v) => {
